@@ -1,3 +1,4 @@
+import sys
 from typing import Optional
 
 from django.core.cache import BaseCache, caches
@@ -38,8 +39,12 @@ def get_component_media_cache() -> BaseCache:
                 "django-components-media",
                 {
                     "TIMEOUT": None,  # No timeout
-                    "MAX_ENTRIES": None,  # No max size
-                    "CULL_FREQUENCY": 3,
+                    # NOTE: Django reads these two from "OPTIONS" (and falls back to 300 entries
+                    #       for anything that is not a number), so this is how to say "no max size".
+                    "OPTIONS": {
+                        "MAX_ENTRIES": sys.maxsize,
+                        "CULL_FREQUENCY": 3,
+                    },
                 },
             )
 
